@@ -65,7 +65,7 @@ func drawScript(t *rapid.T, tag byte, withDialect bool, key *[32]byte, maxSeg in
 			kinds = append(kinds, "valid-debug", "valid-debug", "badcrc")
 		}
 		if key != nil {
-			kinds = append(kinds, "badsig", "unsigned")
+			kinds = append(kinds, "badsig", "unsigned", "badsig-future")
 		}
 		k := rapid.SampledFrom(kinds).Draw(t, "segkind")
 		v2 := key != nil || rapid.Bool().Draw(t, "v2")
@@ -81,6 +81,12 @@ func drawScript(t *rapid.T, tag byte, withDialect bool, key *[32]byte, maxSeg in
 			if key != nil {
 				f.Sig = f.SignatureFor(*key)
 			}
+			out = append(out, seg{kind: k, bytes: f.Bytes()})
+		case "badsig-future":
+			// wrong signature and a timestamp far in the future: must be a parse error and must not
+			// make the channel refuse the authentic frames that follow
+			f := tagged(tag, 9996, "raw", true, key, ts+uint64(rapid.OneOf(rapid.Uint64Range(2000000, 1<<40), rapid.Just(uint64(1)<<47)).Draw(t, "future")))
+			f.Sig[2] ^= 0x11
 			out = append(out, seg{kind: k, bytes: f.Bytes()})
 		case "badsig":
 			f := tagged(tag, 9998, "raw", true, key, ts)
